@@ -95,7 +95,7 @@ class C18(core.Property):
             elif k < 0.4:
                 p, l = rng.choice(ts_pool)
                 nd = r if rng.random() < 0.8 else rng.randrange(n)
-                v = rng.randrange(50)
+                v = rng.choice([0, 0, rng.randrange(50)])   # 0 stands for writing the value None ("clear")
                 if (p, l, nd) in used and rng.random() < 0.9:
                     l += 1 + len(used)
                 used.add((p, l, nd))
@@ -182,7 +182,7 @@ class C18(core.Property):
                 pn[r].decrement(op[2])
             elif kind == "lset":
                 _, _, v, p, l, nd = op
-                lw[r].set(v, HLCTimestamp(p, l, str(nd)))
+                lw[r].set(None if v == 0 else v, HLCTimestamp(p, l, str(nd)))
             elif kind == "oadd":
                 os_[r].add(f"{op[2]}")
             elif kind == "orem":
@@ -205,7 +205,7 @@ class C18(core.Property):
         P = " ".join(str(d["p"]["counts"].get(i, 0)) for i in ids)
         N = " ".join(str(d["n"]["counts"].get(i, 0)) for i in ids)
         ts = lw.timestamp
-        lww = "none" if ts is None else f"{ts.physical_ns} {ts.logical} {ts.node_id} {lw.value}"
+        lww = "none" if ts is None else f"{ts.physical_ns} {ts.logical} {ts.node_id} {0 if lw.value is None else lw.value}"
         od = os_.to_dict()
         elems = sorted(int(e) for e in os_.elements)
         live = sorted(int(e) * 10**9 + int(t[0]) * 10**6 + t[1] for e, tags in od["entries"].items() for t in tags)
